@@ -2999,3 +2999,16 @@ T("C01", "twin-record-default-other-spelling", NODE,
   "        self.incoming = [] if incoming is None else incoming",
   "        self.incoming = incoming if incoming is not None else []",
   "same default handling, arms swapped")
+
+# ---- R1.28 model nodes
+M("C01", "outgoing-logic-over-incoming-map", NODE,
+  "        if direction == \"incoming\":\n            event_node_map = self.event_node_map_incoming\n        else:\n            event_node_map = self.event_node_map_outgoing",
+  "        if direction != \"incoming\":\n            event_node_map = self.event_node_map_incoming\n        else:\n            event_node_map = self.event_node_map_outgoing",
+  "R1.28", "the gate tree of the successors is resolved against the predecessors")
+M("C01", "lonely-merge-is-a-kill-path", NODE,
+  "            if not path:", "            if path:", "R1.28",
+  "the lonely merge becomes the kill path")
+TT("C01", "twin-dead-incoming-branch-removed", [
+    (NODE, "        if direction == \"incoming\":\n            event_node_map = self.event_node_map_incoming\n        else:\n            event_node_map = self.event_node_map_outgoing",
+     "        event_node_map = self.event_node_map_outgoing"),
+], "the pipeline only ever loads outgoing logic")
